@@ -25,15 +25,21 @@ def gen(R, maxdev, sim):
     cfg = "INIT Init\nNEXT Next\nINVARIANT EmitLayout\nCONSTANTS MaxDev = 1\n MaxDepth = 3\n StartSym = \"hdlay\"\n"
     res = R.tlc("ShellGen", cfg, name="ShellGen-layout-hd", timeout=3000)
     cases += shellgen._cases(res)
+    # newlines outside and inside command substitutions
+    cfg = "INIT Init\nNEXT Next\nINVARIANT EmitLayout\nCONSTANTS MaxDev = 1\n MaxDepth = 3\n StartSym = \"nlprog\"\n"
+    res = R.tlc("ShellGen", cfg, name="ShellGen-layout-nl", timeout=3000)
+    cases += shellgen._cases(res)
     return shellgen.dedup(cases)
 
 
 def observe(R, cases):
     inp = []
+    # a second command line follows every program: a transformation must not make the call swallow it
+    more = "zz\n"
     for i, c in enumerate(cases):
-        inp.append(dict(id="b%d" % i, src=c["src"]))
+        inp.append(dict(id="b%d" % i, src=c["src"] + more))
         for j, v in enumerate(c["variants"]):
-            inp.append(dict(id="v%d.%d" % (i, j), src=v["src"]))
+            inp.append(dict(id="v%d.%d" % (i, j), src=v["src"] + (more if v["kind"] != "comment-eof" else "")))
     obs, _ = R.drive("parse", inp, shards=vlib.NCPU)
     byid = {o["id"]: o for o in obs}
     if len(byid) != len(inp):
